@@ -25,6 +25,20 @@ CLAIMED["C11"] = ("exploration", "3 (C11)",
    "Sampling of the (N,m,schedule,fault) space, pairs drawn from the tape (coverage_points_distinct reports how many of the grid were reached). Trusted: echo service, multipart re-parser of the Go standard library.",
    "deterministic simulation: simulated RoundTripper with per-exchange delivery/reply actions, seeded schedule + fault search, sequential-specification oracle")
 
+FED_NOTE = "Sampling of (world, operation, configuration, schedule) tuples; generated schemas follow pebbles' documented federation contract; operation/schema features that hit an open known finding (known_findings.json) are off in the sampled workload and run only in that finding's dedicated replay. Trusted: the reference executor (shares code with the service executor, none with pebbles), gqlparser."
+CLAIMED["C01"] = ("exploration", "3 (C01), 2.5, 2.6",
+   "The real gateway (merge -> plan -> execute -> scrub, both mergers, with/without id-to-type hint, plain/caching planner, small and default downstream batch sizes) boots from independently projected service schemas and answers generated operations over simulated services; every answer is compared, after the one tolerated normalisation (pruned empty objects), with a single-server reference executor over the union schema and the same pure data function; errors must be empty. The scheduler decides fan-out worker order, answer delivery order (answers overtake) and plan-step order.",
+   FED_NOTE, "deterministic simulation: seeded scheduler + simulated transport, differential oracle against a single-server reference model")
+CLAIMED["C02"] = ("exploration", "3 (C02)",
+   "Wire invariant on every sub-request delivered to a simulated service during C01-style runs: parses, validates against that service's own schema (gqlparser validator), variables coerce, it is the text of a recorded plan step for that service, and every client variable it uses arrives with the client's value or default. Per translation, on the recorded plan: every client-selected field on a concrete parent is requested from a service that declares it; every extra field is id/__typename and registered for scrubbing.",
+   FED_NOTE + " Coverage under abstract parents is decided dynamically by C01.", "deterministic simulation: invariant monitor on the simulated wire + translation check on the recorded plan")
+CLAIMED["C12"] = ("exploration", "3 (C12)",
+   "History check over the calls observed at the queryer.Queryer seam: per client operation, calls to a service <= number of plan levels at which it appears (worlds skewed to long and uneven lists and 2 entities per type so repeats are the rule); no call carries the same id-only lookup twice; the answer still equals the reference (the de-duplicated result reached every place).",
+   FED_NOTE, "deterministic simulation: recorded call history checked against the plan shape, plus differential answer check")
+CLAIMED["C13"] = ("exploration", "3 (C13), 2.12",
+   "One operation is sent k=8 (thorough 32) times to one gateway, each repetition under a freshly drawn scheduling policy and plan-step permutation (hook H2); a third of the runs poison sub-requests by content so that errors is non-empty. All repetitions must agree on data, on the multiset of errors (message, path, extensions) and on the multiset of sub-requests per service.",
+   FED_NOTE + " Go's map iteration inside pebbles cannot be seeded: an order dependence that changes an outcome is caught with probability 1-2^-(k-1) per run.", "deterministic simulation: k-fold repetition under seeded schedule perturbation, agreement oracle")
+
 PENDING = {}  # id -> reason while a check is not built yet
 
 def main():
